@@ -43,6 +43,25 @@ Theorem C01_solve_all_reports_the_reference_answers : forall kb fuel q w fs R nd
   Forall2 (fun s txt => exists f, answer_text f q s = Ok txt) (fst R) l /\ w' = snd R.
 Proof. exact solve_all_refines. Qed.
 
+(* solve, called n times (also beyond exhaustion), no timeout pending: the first n reference answers,
+   formatted, then `No more.` for ever *)
+Theorem C01_solve_reports_the_reference_answers : forall kb fuel q w fs R nd w1 n txts nd' w',
+  quiet w ->
+  canswers kb fuel fs q w = Ok R ->
+  make_base_node kb (GCall q) w = Ok (nd, w1) ->
+  solve_times n fuel kb nd w1 = Ok (txts, nd', w') ->
+  Forall2 (solve_text fuel q) (map Some (firstn n (fst R)) ++ repeat None (n - length (fst R))) txts.
+Proof. exact solve_refines. Qed.
+
+(* next_solution, called n times (also beyond exhaustion): the first n reference answers, then None for
+   ever; from exhaustion on the world is the reference's final world *)
+Theorem C01_requests_are_the_reference_answers : forall kb bf nd w rs nd' w',
+  Asks kb bf nd w rs nd' w' ->
+  forall fs a wE g, ncutb nd = true -> (1 <= fs)%nat -> cden kb bf fs nd w collect = Ok (a, wE, g) ->
+    rs = map Some (firstn (length rs) a) ++ repeat None (length rs - length a) /\
+    (length a < length rs -> w' = wE)%nat.
+Proof. exact asks_are_reference_answers. Qed.
+
 (* the refinement mapping, for every node and every continuation *)
 Theorem C01_step_all : forall kb bf F nd w nd' r c w1 fs k R,
   (1 <= fs)%nat -> next kb bf F nd w = Ok (nd', r, c, w1) -> cden kb bf fs nd w k = Ok R ->
@@ -156,6 +175,8 @@ Check C01_partial_answer_format : forall f0 qargs f1 rargs, length qargs = lengt
 
 Print Assumptions C01_refines.
 Print Assumptions C01_solve_all_reports_the_reference_answers.
+Print Assumptions C01_solve_reports_the_reference_answers.
+Print Assumptions C01_requests_are_the_reference_answers.
 Print Assumptions C01_step_all.
 Print Assumptions C01_fresh_node_all.
 Print Assumptions C01_refines_cut_free.
